@@ -133,14 +133,6 @@ func TestSourceAdmission(t *testing.T) {
 		t.Fatalf("live: %q", got)
 	}
 	c.send("replconf", "ack", "116")
-	src.DropReplicaAfter(3)
-	src.Append([]byte("ghijkl"))
-	if got := c.read(t, 3); string(got) != "ghi" {
-		t.Fatalf("before drop: %q", got)
-	}
-	if _, err := c.rd.ReadByte(); err == nil {
-		t.Fatalf("connection not dropped")
-	}
 	deadline := time.Now().Add(5 * time.Second)
 	for {
 		acks := src.Acks()
@@ -151,6 +143,14 @@ func TestSourceAdmission(t *testing.T) {
 			t.Fatalf("ack not recorded: %+v", acks)
 		}
 		time.Sleep(time.Millisecond)
+	}
+	src.DropReplicaAfter(3)
+	src.Append([]byte("ghijkl"))
+	if got := c.read(t, 3); string(got) != "ghi" {
+		t.Fatalf("before drop: %q", got)
+	}
+	if _, err := c.rd.ReadByte(); err == nil {
+		t.Fatalf("connection not dropped")
 	}
 	if src.MasterReplOffset() != 122 {
 		t.Fatalf("mro %d", src.MasterReplOffset())
